@@ -39,6 +39,27 @@ type childOutcome struct {
 	LastCase   string
 	RaceBlocks []string // "WARNING: DATA RACE" blocks from the race log
 	Err        error
+	Aborted    bool // stopped (or not started) because a sibling reported a goroutine spinning inside vegeta
+}
+
+// Once one child has reported "a goroutine spins for ever inside vegeta" (spinEnd), its siblings
+// are stopped: under the race detector a spinning worker slows the healthy ones down so much that
+// such a child needs tens of minutes per case before it can say the same thing (DESIGN 10.26).
+var (
+	childAbort     = make(chan struct{})
+	childAbortOnce sync.Once
+)
+
+func blobReportsSpin(b *ev.Blob) bool {
+	if b == nil {
+		return false
+	}
+	for _, v := range b.Violations {
+		if strings.Contains(v.Signature, "attack-never-ends/worker-spins") || strings.Contains(v.Signature, "stress-workers-spinning") {
+			return true
+		}
+	}
+	return false
 }
 
 // logCase is called by a child before it runs a case.
@@ -72,6 +93,12 @@ func runChild(c *Ctx, spec childSpec) childOutcome {
 		cmd.Env = append(cmd.Env, "GORACE=halt_on_error=0 history_size=2 log_path="+filepath.Join(d, "race"))
 	}
 	cmd.SysProcAttr = &syscall.SysProcAttr{Setpgid: true}
+	select {
+	case <-childAbort:
+		out.Aborted = true
+		return out
+	default:
+	}
 	if err := cmd.Start(); err != nil {
 		out.Err = err
 		return out
@@ -85,6 +112,11 @@ func runChild(c *Ctx, spec childSpec) childOutcome {
 	var werr error
 	select {
 	case werr = <-done:
+	case <-childAbort:
+		out.Aborted = true
+		_ = syscall.Kill(-cmd.Process.Pid, syscall.SIGKILL)
+		<-done
+		return out
 	case <-time.After(timeout):
 		out.TimedOut = true
 		_ = cmd.Process.Signal(syscall.SIGQUIT) // goroutine dump into stderr
@@ -183,6 +215,9 @@ func foldChild(run *ev.Run, o childOutcome, raceFilter func(string) bool) {
 		run.Merge(o.Blob)
 	}
 	switch {
+	case o.Aborted:
+		run.Count("children_stopped_after_a_sibling_reported_a_spinning_worker", 1)
+		return
 	case o.Err != nil:
 		run.Inconclusive(fmt.Sprintf("child %s could not run: %v", o.Spec.Label, o.Err))
 	case o.TimedOut:
